@@ -18,25 +18,29 @@ from harness import tlc, traces
 from harness.core import Ctx
 from harness.tlc import tla_set as S, tla_lit as L
 
-SCENARIOS = [      # (script, events, failing handlers, handlers that call stop())
-    (["start", "stop"], 1, [], []),
-    (["start", "stop", "start"], 2, [1], []),
-    (["start", "start"], 2, [], [1]),
-    (["start", "stop", "start", "stop"], 3, [1], []),
-    (["stop", "start", "start"], 1, [], []),
-    (["start", "stop", "start"], 3, [], [2]),
-    (["start", "start", "stop"], 2, [], []),
-    (["start", "endrep"], 2, [], []),
-    (["start", "stop", "endrep"], 2, [1], []),
-    (["endrep", "start"], 1, [], []),
-    (["start", "endrep", "stop"], 2, [], []),
+SCENARIOS = [      # (script, events, failing handlers, handlers that call stop(), START_EVENT listener command, STOP_EVENT listener command)
+    (["start", "stop"], 1, [], [], "none", "none"),
+    (["start", "stop", "start"], 2, [1], [], "none", "none"),
+    (["start", "start"], 2, [], [1], "none", "none"),
+    (["start", "stop", "start", "stop"], 3, [1], [], "none", "none"),
+    (["stop", "start", "start"], 1, [], [], "none", "none"),
+    (["start", "stop", "start"], 3, [], [2], "none", "none"),
+    (["start", "start", "stop"], 2, [], [], "none", "none"),
+    (["start", "endrep"], 2, [], [], "none", "none"),
+    (["start", "stop", "endrep"], 2, [1], [], "none", "none"),
+    (["start"], 2, [], [], "stop", "none"),
+    (["start", "stop"], 2, [], [], "none", "start"),
+    (["start", "start"], 2, [1], [], "none", "start"),
+    (["endrep", "start"], 1, [], [], "none", "none"),
+    (["start", "endrep", "stop"], 2, [], [], "none", "none"),
+    (["start", "stop", "start"], 3, [], [], "stop", "start"),
 ]
 STRICT = ["NoStuckState", "NoLostStart", "EndedFinal", "ThreadGoneAfterEnd", "RefusedWroteNothing", "StopEffective", "EndRepEffective"]
 KNOWN = ["NoStuckStateK", "NoLostStartK", "EndedFinalK", "ThreadGoneK", "RefusedWroteNothing", "StopEffectiveK", "EndRepEffectiveK"]
 
 
-def consts(script, nev, faulty, stoppers=(), fixes=(), anyto=False):
-    return {"Script": L(script), "NEvents": str(nev), "Faulty": S(faulty), "Stoppers": S(list(stoppers)), "Fixes": S(list(fixes)),
+def consts(script, nev, faulty, stoppers=(), onstart="none", onstop="none", fixes=(), anyto=False):
+    return {"Script": L(script), "NEvents": str(nev), "Faulty": S(faulty), "Stoppers": S(list(stoppers)), "OnStart": L(onstart), "OnStop": L(onstop), "Fixes": S(list(fixes)),
             "AnyTimeout": "TRUE" if anyto else "FALSE"}
 
 
@@ -77,6 +81,15 @@ def signatures(log, final):
     if final["rep"] == "ENDING" and len(rep_writes) >= 2 and rep_writes[-1]["t"] == "c" and rep_writes[-2]["t"] == "w" and rep_writes[-2]["x"] == "ENDED":
         sig.add("race|late_ending_write")
     for k, d in enumerate(log):
+        if d["t"] == "w" and d["k"] == "W" and d["v"] == "rs" and d["x"] == "STARTING":      # only a listener's start() writes STARTING on the run thread
+            nxt = next((e for e in log[k + 1:] if e["t"] == "w" and e["k"] == "ev" and e["v"] in ("clear", "woke")), None)
+            if nxt is not None and nxt["v"] == "clear":
+                sig.add("listener|start_in_stop_listener_lost")
+        if d["t"] == "w" and d["k"] == "W" and d["v"] == "rs" and d["x"] == "STOPPING":
+            nxt = next((e for e in log[k + 1:] if e["t"] == "w" and e["k"] == "W" and e["v"] == "rs"), None)
+            if nxt is not None and nxt["x"] == "STARTED":
+                sig.add("listener|stop_in_start_listener_overwritten")
+    for k, d in enumerate(log):
         if d["t"] == "c" and d["k"] == "W" and d["v"] == "rep" and d["x"] == "ENDING":
             nxt = next((e for e in log[k + 1:] if e["t"] == "w" and e["k"] == "ev" and e["v"] in ("clear", "woke")), None)
             if nxt is not None and nxt["v"] == "clear" and final["rep"] == "ENDING":
@@ -96,7 +109,17 @@ def observables(ctx, sc, label, case):
     from harness.sched import SCHED
     sig = signatures(SCHED.log, st)
     probs = []
-    starts_ok = sum(1 for c, r in st["results"] if c == "start" and r == "ok")
+    starts_ok = sum(1 for c, r in st["results"] if c in ("start", "start@STOP") and r == "ok")
+    if ("stop@START", "ok") in st["results"]:
+        k0 = next((k for k, d in enumerate(SCHED.log) if d["t"] == "w" and d["k"] == "W" and d["v"] == "rs" and d["x"] == "STOPPING"), None)
+        nexec = 0
+        for e in (SCHED.log[k0 + 1:] if k0 is not None else []):
+            if e["k"] == "W" and e["v"] == "rs" and e["x"] in ("STOPPED", "ENDED", "STARTING"):
+                break
+            if e["t"] == "w" and e["k"] == "exec":
+                nexec += 1
+        if nexec:
+            probs.append(("stop_from_listener_ignored", f"a START_EVENT listener's stop() returned normally but the run thread went on to execute {nexec} event(s) in that segment"))
     segments = sum(1 for d in SCHED.log if d["t"] == "w" and d["k"] == "W" and d["v"] == "runflag")
     if st["rs"] in ("STARTING", "STARTED", "STOPPING"):
         probs.append(("stuck_state", f"at quiescence run_state = {st['rs']} (replication_state = {st['rep']}); commands returned {st['results']}"))
@@ -134,7 +157,11 @@ def observables(ctx, sc, label, case):
                 probs.append(("stop_lost", f"stop() wrote STOPPING but the run thread executed {nexec} more events before parking"))
     for key, detail in probs:
         k = None
-        if key == "end_replication_lost" and "race|late_ending_write" in sig:
+        if key == "stop_from_listener_ignored" and "listener|stop_in_start_listener_overwritten" in sig:
+            k = "listener|stop_in_start_listener_overwritten"
+        elif key == "lost_start" and "listener|start_in_stop_listener_lost" in sig:
+            k = "listener|start_in_stop_listener_lost"
+        elif key == "end_replication_lost" and "race|late_ending_write" in sig:
             k = "race|late_ending_write"
         elif key == "end_replication_lost" and "race|end_replication_wakeup_cleared" in sig:
             k = "race|end_replication_wakeup_cleared"
@@ -146,12 +173,12 @@ def observables(ctx, sc, label, case):
     return probs
 
 
-def replay_behaviour(ctx, beh, script, nev, faulty, label, stoppers=()):
+def replay_behaviour(ctx, beh, script, nev, faulty, label, stoppers=(), onstart="none", onstop="none"):
     """execute one SimThreads.tla behaviour on the real threads; returns 'ok' | 'diverged' | 'error'"""
     from harness.drive_threads import Scenario
     from harness.sched import SCHED, Deadlock
-    sc = Scenario(script, nevents=nev, faults=faulty, stoppers=stoppers)
-    case = {"script": script, "nevents": nev, "faulty": faulty, "steps": [dict(s["last"]) for _, _, s in beh[1:]]}
+    sc = Scenario(script, nevents=nev, faults=faulty, stoppers=stoppers, onstart=onstart, onstop=onstop)
+    case = {"script": script, "nevents": nev, "faulty": faulty, "stoppers": list(stoppers), "onstart": onstart, "onstop": onstop, "steps": [dict(s["last"]) for _, _, s in beh[1:]]}
     status = "ok"
     try:
         for k, (_, _, st) in enumerate(beh[1:]):
@@ -222,8 +249,8 @@ def overlap_layer(ctx: Ctx):
         diverged = 0
         nbeh = 0
         all_traces = {}
-        for si, (script, nev, faulty, stoppers) in enumerate(SCENARIOS[: ctx.pick(9, 11)]):
-            c = consts(script, nev, faulty, stoppers)
+        for si, (script, nev, faulty, stoppers, onstart, onstop) in enumerate(SCENARIOS[: ctx.pick(12, 15)]):
+            c = consts(script, nev, faulty, stoppers, onstart, onstop)
             # exhaustive: strict invariants expose the known races, the K-invariants must hold
             files, mod, cfg = tlc.mc_files("MC_SimThreads", "SimThreads", c, invariants=KNOWN)
             r = tlc.run(mod, cfg, extra_files=files, workers=8, timeout=900)
@@ -249,7 +276,7 @@ def overlap_layer(ctx: Ctx):
             if ncov != len(edges):
                 raise tlc.MachineryError("edge cover incomplete")
             cap = ctx.pick(250, 100000)
-            ctx.notes.setdefault("thread_edge_cover", {})[str(script) + str(stoppers) + str(faulty)] = {"states": len(nodes), "edges": len(edges), "paths": len(paths),
+            ctx.notes.setdefault("thread_edge_cover", {})[str(script) + str(stoppers) + str(faulty) + onstart + onstop] = {"states": len(nodes), "edges": len(edges), "paths": len(paths),
                                                                                                  "paths_executed": min(len(paths), cap)}
             if len(paths) > cap:
                 step = len(paths) / cap
@@ -257,7 +284,7 @@ def overlap_layer(ctx: Ctx):
             for p in paths:
                 behs.append([("Init", None, nodes[inits[0]])] + [(edges[k][1], None, nodes[edges[k][2]]) for k in p])
             for bi, beh in enumerate(behs):
-                status = replay_behaviour(ctx, beh, script, nev, faulty, f"scenario {script} events={nev} faulty={faulty} stoppers={stoppers} behaviour {bi}", stoppers)
+                status = replay_behaviour(ctx, beh, script, nev, faulty, f"scenario {script} events={nev} faulty={faulty} stoppers={stoppers} listeners={onstart}/{onstop} behaviour {bi}", stoppers, onstart, onstop)
                 nbeh += 1
                 ctx.evaluations += 1
                 ctx.distinct.add(("thr", si, tuple((s["last"]["t"], s["last"]["k"]) for _, _, s in beh[1:])))
@@ -269,7 +296,7 @@ def overlap_layer(ctx: Ctx):
             trs = []
             for k in range(ctx.pick(60, 600)):
                 rng = random.Random(ctx.seed * 1000 + si * 100 + k)
-                sc = Scenario(script, nevents=nev, faults=faulty, stoppers=stoppers)
+                sc = Scenario(script, nevents=nev, faults=faulty, stoppers=stoppers, onstart=onstart, onstop=onstop)
                 try:
                     sc.run_schedule(FairChooser(rng, p_caller=rng.choice([0.2, 0.5, 0.8])).choose, max_steps=6000)
                     observables(ctx, sc, f"random schedule {k} of {script} events={nev} faulty={faulty}", {"script": script, "log": log_to_trace(SCHED.log)})
